@@ -259,6 +259,7 @@ func init() {
 	Properties["C13"] = &PropertySpec{
 		Modules: bt,
 		Rules: []Rule{
+			Only(R28(), `^c/`),
 			R52(),
 			R45(),
 			R08(Only8("ReadModifyWriteRow")),
